@@ -259,6 +259,9 @@ def run_case(case):
             elif kind == 'set_period':
                 spec.set_sampling_period(call[1], call[2], call[3])
                 res = {'status': 'ok', 'value': None}
+            elif kind == 'pastify':
+                spec.pastify()
+                res = {'status': 'ok', 'value': None}
             elif kind == 'get_value':
                 res = {'status': 'ok', 'value': canon_val(spec.get_value(call[1]))}
             elif kind == 'counter':
@@ -370,6 +373,9 @@ def do_call(spec, case, call):
         return {'status': 'ok', 'value': None}
     if kind == 'set_period':
         spec.set_sampling_period(call[1], call[2], call[3])
+        return {'status': 'ok', 'value': None}
+    if kind == 'pastify':
+        spec.pastify()
         return {'status': 'ok', 'value': None}
     if kind == 'get_value':
         return {'status': 'ok', 'value': canon_val(spec.get_value(call[1]))}
